@@ -33,7 +33,13 @@ pub fn choice_module(patterns: &[Value]) -> String {
         }).collect();
         s.push_str(&format!("Ch{i}x ::= CHOICE {{ {} }}\n", alts.join(", ")));
     }
-    s.push_str("dflt Wrapped ::= { x 5 }\nEND\n");
+    // value assignments of every initialiser form the generator has (const, lazily initialised, CHOICE with a const and with a
+    // lazily initialised alternative): no option may change the value itself
+    s.push_str("dflt Wrapped ::= { x 5 }\n\
+Msg ::= CHOICE { raw OCTET STRING, num INTEGER, rec Wrapped, flag BOOLEAN, small INTEGER (0..100) }\n\
+msgRaw Msg ::= raw : '0102'H\nmsgNum Msg ::= num : 5\nmsgRec Msg ::= rec : { x 7 }\nmsgFlag Msg ::= flag : TRUE\nmsgSmall Msg ::= small : 9\n\
+octs OCTET STRING ::= 'AB'H\nbits BIT STRING ::= '101'B\noid OBJECT IDENTIFIER ::= { iso standard 8571 }\ntxt IA5String ::= \"abc\"\n\
+big INTEGER ::= 123456789012345678901234567890\nsmall INTEGER (0..100) ::= 42\nyes BOOLEAN ::= TRUE\nEND\n");
     s
 }
 
